@@ -632,6 +632,10 @@ def _compute_frontier(ctx: ContractContext, depth: int) -> Iterator[Exec]:
     next_exs = []
     frontier_states[depth] = next_exs
 
+    # the cache is only complete once this generator has been consumed to the end
+    # (a test may stop consuming it early, e.g. because of --width or --early-exit)
+    ctx.incomplete_frontiers.add(depth)
+
     visited = ctx.visited
 
     args = ctx.args
@@ -741,6 +745,9 @@ def _compute_frontier(ctx: ContractContext, depth: int) -> Iterator[Exec]:
                 next_exs.append(post_ex)
                 yield post_ex
 
+    if depth - 1 not in ctx.incomplete_frontiers:
+        ctx.incomplete_frontiers.discard(depth)
+
 
 def get_frontier(ctx: ContractContext, depth: int) -> Iterable[Exec]:
     """
@@ -754,6 +761,11 @@ def get_frontier(ctx: ContractContext, depth: int) -> Iterable[Exec]:
     As a result, subsequent tests might only consider a partially computed frontier.
     """
     if (frontier := ctx.frontier_states.get(depth)) is not None:
+        if depth in ctx.incomplete_frontiers:
+            warn(
+                f"{ctx.name}: the states at depth {depth} were only partially computed by an earlier test "
+                "(stopped by --width or --early-exit); this test does not cover the remaining ones"
+            )
         return frontier
 
     return _compute_frontier(ctx, depth)
